@@ -281,7 +281,7 @@ fn gen_scenario(r: &mut Rng) -> Scenario {
 		if r.chance(2, 5) {
 			match r.below(7) {
 				0 | 1 => cb.pause = Some(gen_tw(r, true)),
-				2 | 3 => cb.resume = Some((if r.chance(1, 2) { gen_start(r) } else { Start::Imm }, gen_tw(r, false))),
+				2 | 3 => cb.resume = Some((if r.chance(1, 2) { gen_start(r) } else { Start::Imm }, gen_tw(r, true))),
 				4 => cb.stop = Some(gen_tw(r, true)),
 				5 => {
 					cb.pause = Some(gen_tw(r, false));
@@ -880,7 +880,7 @@ fn key_of(t: &str) -> String {
 fn gen_cmds(r: &mut Rng, cb: &mut Cb) {
 	match r.below(7) {
 		0 | 1 => cb.pause = Some(gen_tw(r, true)),
-		2 | 3 => cb.resume = Some((if r.chance(1, 2) { gen_start(r) } else { Start::Imm }, gen_tw(r, false))),
+		2 | 3 => cb.resume = Some((if r.chance(1, 2) { gen_start(r) } else { Start::Imm }, gen_tw(r, true))),
 		4 => cb.stop = Some(gen_tw(r, true)),
 		5 => {
 			cb.pause = Some(gen_tw(r, false));
@@ -1707,6 +1707,457 @@ fn track_scenarios(s: &mut Session, r: &mut Rng, ids: &[ClockId], count: u64) {
 	}
 }
 
+// ================================================================================================
+// fade commands whose TWEEN carries its own start time (delayed / clock): `resume(tween)` is an immediate resume -
+// Resuming at once, the fade counts the tween's delay once - `pause(tween)` is Pausing at once, `stop(tween)` Stopping
+// ================================================================================================
+#[derive(Clone, Copy, Debug, PartialEq)]
+enum FadeCmd {
+	Resume,
+	Pause,
+	Stop,
+}
+#[derive(Clone, Debug)]
+struct TsLaw {
+	streaming: bool,
+	cmd: FadeCmd,
+	chunk: usize,
+	/// callbacks played before anything happens
+	lead: usize,
+	/// Resume only: callbacks between the instant pause and the resume (>= 1: the sound is Paused when resume is sent)
+	wait: usize,
+	/// the start time of the command's tween: Imm, Del(whole frames), Clk on clock 0 (which shows `j` ticks at callback j)
+	start: Start,
+	/// tween duration in frames (even)
+	dur: u64,
+	easing: Easing,
+}
+/// exactly `k` frames as nanoseconds (k even)
+fn frames_ns(k: u64) -> u64 {
+	assert!(k % 2 == 0);
+	k / 2 * 1_953_125
+}
+
+/// scenario with a known answer.  A DC sound plays at unity gain; the command is issued before callback `c`; the tween
+/// completes d + D after that (d = the tween's own delay; for a clock time: D after the callback in which the clock
+/// shows the time).  Until then the handle reports the fading state of the command (never WaitingToResume: that is
+/// resume_at's), afterwards the settled one; gain monotone, exactly unity / silence at the end; a resumed sound
+/// advances from the first callback on.  Sent to the model as well (`(SImm, tween)` for the resume)
+fn tween_start_law(s: &mut Session, ids: &[ClockId], l: &TsLaw, fixed: bool) {
+	let chunk = l.chunk;
+	let cmd_cb = if l.cmd == FadeCmd::Resume { l.lead + l.wait } else { l.lead };
+	let dcb = (l.dur as usize + chunk - 1) / chunk;
+	// callbacks after the command (1-based) in which the tween may complete: lo ..= hi
+	let (lo, hi, when) = match &l.start {
+		Start::Imm => (dcb.max(1), dcb.max(1), "at once".to_string()),
+		Start::Del(ns) => {
+			let d = (*ns / 1_953_125 * 2) as usize;
+			let ideal = ((d + l.dur as usize + chunk - 1) / chunk).max(1);
+			(ideal, ideal + 1, format!("after its own delay of {d} frames"))
+		}
+		Start::Clk { ticks, .. } => {
+			let w = (*ticks as usize).saturating_sub(cmd_cb);
+			(w + dcb.max(1), w + dcb.max(1), format!("when clock 0 shows {ticks} ticks (it shows j ticks during callback j)"))
+		}
+	};
+	let ncb = cmd_cb + hi + 3;
+	let mut cbs: Vec<Cb> = (0..ncb).map(|j| Cb { pause: None, resume: None, stop: None, lens: vec![chunk], clocks: vec![(true, true, j as u64, 0.0)] }).collect();
+	let tw = Tw { start: l.start.clone(), dur_ns: frames_ns(l.dur), easing: l.easing };
+	match l.cmd {
+		FadeCmd::Resume => {
+			cbs[l.lead].pause = Some(frames_tw(0, Easing::Linear));
+			cbs[cmd_cb].resume = Some((Start::Imm, tw.clone()));
+		}
+		FadeCmd::Pause => cbs[cmd_cb].pause = Some(tw.clone()),
+		FadeCmd::Stop => cbs[cmd_cb].stop = Some(tw.clone()),
+	}
+	let total = ncb * chunk;
+	let what = format!(
+		"{}{} DC sound playing at unity gain, callbacks of {chunk} frames; {} before callback {cmd_cb}; the tween starts {when} and lasts {} frames ({:?})",
+		if fixed { "[fixed corpus] " } else { "" },
+		if l.streaming { "streaming" } else { "static" },
+		match l.cmd {
+			FadeCmd::Resume => format!("pause(instant) before callback {}, then, the handle reporting Paused, resume(Tween {{ start_time: {:?}, .. }})", l.lead, l.start),
+			FadeCmd::Pause => format!("pause(Tween {{ start_time: {:?}, .. }})", l.start),
+			FadeCmd::Stop => format!("stop(Tween {{ start_time: {:?}, .. }})", l.start),
+		},
+		l.dur,
+		l.easing
+	);
+	let (tr, desc) = if l.streaming {
+		let sc = SScenario {
+			packets: vec![total + 8, 3],
+			fail_at: None,
+			st: Start::Imm,
+			fade_in: None,
+			cbs: cbs.iter().enumerate().map(|(j, cb)| SCb { permits: if j == 0 { 1 } else { 0 }, cb: cb.clone() }).collect(),
+		};
+		let st = run_stream(ids, &sc);
+		let refs: Vec<&Cb> = cbs.iter().collect();
+		let t = stream_term(&sc.st, &sc.fade_in, &refs[..st.env.len().min(refs.len())], &st.env, &st.tr.tab);
+		let desc = format!("{what}: {t}");
+		if !st.timeout && !st.tr.panicked {
+			s.case("tween_start_stream", t.clone(), &st.tr.obs, Some(key_of(&t)));
+		}
+		stream_monitors(s, &desc, &sc, &st);
+		if st.timeout || st.tr.panicked {
+			return;
+		}
+		(st.tr, desc)
+	} else {
+		let sc = Scenario { n: total + 8, start: 0, lp: false, st: Start::Imm, fade_in: None, cbs: cbs.clone() };
+		let tr = run_scenario(ids, &sc);
+		let t = term(&sc, &tr.tab);
+		let desc = format!("{what}: {t}");
+		s.case("tween_start_static", t.clone(), &tr.obs, Some(key_of(&t)));
+		monitors(s, &desc, &sc, &tr);
+		if tr.panicked {
+			return;
+		}
+		(tr, desc)
+	};
+	s.count(&format!("tween_start_{:?}_{}", l.cmd, match l.start { Start::Imm => "immediate", Start::Del(_) => "delayed", Start::Clk { .. } => "clock" }));
+	let (during, target) = match l.cmd {
+		FadeCmd::Resume => (PlaybackState::Resuming, PlaybackState::Playing),
+		FadeCmd::Pause => (PlaybackState::Pausing, PlaybackState::Paused),
+		FadeCmd::Stop => (PlaybackState::Stopping, PlaybackState::Stopped),
+	};
+	let name = format!("{:?}", l.cmd).to_lowercase();
+	// before the command
+	for (j, (stt, _, _, outs)) in tr.per_cb.iter().enumerate().take(cmd_cb) {
+		let (want, silent) = if l.cmd == FadeCmd::Resume && j >= l.lead { (PlaybackState::Paused, true) } else { (PlaybackState::Playing, false) };
+		if *stt != want || (silent && outs.iter().any(|x| *x != 0.0)) || (!silent && j > 0 && outs.iter().any(|x| *x != 1.0)) {
+			s.fail(desc.clone(), format!("callback {j} (before the {name}): state {stt:?}, output {outs:?}; expected {want:?} and {}", if silent { "silence" } else { "unity gain" }), None);
+			return;
+		}
+	}
+	let rising = l.cmd == FadeCmd::Resume;
+	let mut last: f32 = if rising { 0.0 } else { 1.0 };
+	let mut settled_at: Option<usize> = None;
+	for (j, (stt, pos, _, outs)) in tr.per_cb.iter().enumerate().skip(cmd_cb) {
+		let n = j - cmd_cb + 1;
+		let ok = if settled_at.is_some() || n > hi { *stt == target } else if n < lo { *stt == during } else { *stt == during || *stt == target };
+		if !ok {
+			s.fail(
+				desc.clone(),
+				format!(
+					"callback {n} after {name}(tween): the handle reports {stt:?}; {name} is {during:?} at once and then {target:?} when its tween completes, {} frames after the command, i.e. in callback {lo}{} after it",
+					match &l.start {
+						Start::Del(ns) => format!("{} + {}", ns / 1_953_125 * 2, l.dur),
+						_ => format!("{}", l.dur),
+					},
+					if hi > lo { format!(" or {hi}") } else { String::new() }
+				),
+				None,
+			);
+			return;
+		}
+		if *stt == target && settled_at.is_none() {
+			settled_at = Some(j);
+		}
+		for x in outs {
+			if (rising && *x < last) || (!rising && *x > last) {
+				s.fail(desc.clone(), format!("callback {n} after {name}(tween): the gain moved from {last:?} to {x:?}, against the direction of the fade"), None);
+				return;
+			}
+			last = *x;
+		}
+		if let Some(p) = settled_at {
+			let end = if rising { 1.0 } else { 0.0 };
+			if (j > p || !rising) && outs.iter().any(|x| *x != end) && (j > p || l.cmd != FadeCmd::Stop) {
+				// Paused: the callback that ends Paused is silent; Playing / Stopped: exact from the next callback on
+				s.fail(desc.clone(), format!("callback {n} after {name}(tween): output {outs:?} although the handle reports {target:?} since callback {}; the gain must be exactly {end:?}", p - cmd_cb + 1), None);
+				return;
+			}
+		}
+		// a resumed sound advances: the position reported at callback j + 1 is one callback further than at callback j
+		if rising && j > cmd_cb {
+			let (a, b) = ((tr.per_cb[j - 1].1 * SR as f64).round() as i64, (pos * SR as f64).round() as i64);
+			let want = chunk as i64;
+			if b - a != want {
+				s.fail(desc.clone(), format!("callback {n} after resume(tween): the reported position went from frame {a} to frame {b}; a resumed sound advances by {chunk} frames per callback from the callback in which resume was read"), None);
+				return;
+			}
+		}
+	}
+}
+
+fn fixed_tween_start_corpus() -> Vec<TsLaw> {
+	let del = |frames: u64| Start::Del(frames_ns(frames));
+	let mut v = vec![];
+	for streaming in [false, true] {
+		// pause, wait until Paused, resume(Tween { start_time: Delayed(8 frames), duration: 8 frames })
+		v.push(TsLaw { streaming, cmd: FadeCmd::Resume, chunk: 4, lead: 2, wait: 2, start: del(8), dur: 8, easing: Easing::Linear });
+		v.push(TsLaw { streaming, cmd: FadeCmd::Resume, chunk: 2, lead: 1, wait: 1, start: del(16), dur: 0, easing: Easing::Linear });
+		v.push(TsLaw { streaming, cmd: FadeCmd::Resume, chunk: 8, lead: 1, wait: 3, start: del(24), dur: 16, easing: Easing::OutPowi(2) });
+		v.push(TsLaw { streaming, cmd: FadeCmd::Resume, chunk: 4, lead: 1, wait: 1, start: Start::Clk { clock: 0, ticks: 5, fr: 0.0 }, dur: 8, easing: Easing::Linear });
+		v.push(TsLaw { streaming, cmd: FadeCmd::Resume, chunk: 4, lead: 1, wait: 1, start: Start::Imm, dur: 8, easing: Easing::Linear });
+		v.push(TsLaw { streaming, cmd: FadeCmd::Pause, chunk: 4, lead: 2, wait: 0, start: del(8), dur: 8, easing: Easing::Linear });
+		v.push(TsLaw { streaming, cmd: FadeCmd::Stop, chunk: 4, lead: 2, wait: 0, start: del(8), dur: 8, easing: Easing::InPowi(2) });
+		v.push(TsLaw { streaming, cmd: FadeCmd::Pause, chunk: 2, lead: 1, wait: 0, start: Start::Clk { clock: 0, ticks: 4, fr: 0.0 }, dur: 4, easing: Easing::Linear });
+	}
+	v
+}
+
+fn tween_start_scenarios(s: &mut Session, r: &mut Rng, ids: &[ClockId], count: u64) {
+	for i in 0..count {
+		let chunk = *r.pick(&[1usize, 2, 4, 8]);
+		let lead = r.range(1, 3) as usize;
+		let cmd = match r.below(4) {
+			0 => FadeCmd::Pause,
+			1 => FadeCmd::Stop,
+			_ => FadeCmd::Resume,
+		};
+		let wait = if cmd == FadeCmd::Resume { r.range(1, 3) as usize } else { 0 };
+		let cmd_cb = lead + wait;
+		let start = match r.below(6) {
+			0 => Start::Imm,
+			1 | 2 => Start::Clk { clock: 0, ticks: (cmd_cb as u64 + r.below(6)).saturating_sub(1), fr: 0.0 },
+			_ => Start::Del(frames_ns((r.below(16) + 1) * 2)),
+		};
+		let dur = if r.chance(1, 5) { 0 } else { (r.below(12) + 1) * 2 };
+		let l = TsLaw { streaming: i % 2 == 1, cmd, chunk, lead, wait, start, dur, easing: gen_easing(r) };
+		tween_start_law(s, ids, &l, false);
+	}
+}
+
+// ================================================================================================
+// seeks that reach a static sound while it is Paused / WaitingToResume: the position does not advance
+// ================================================================================================
+#[derive(Clone, Debug, Default)]
+struct KCb {
+	pause: Option<Tw>,
+	resume: Option<(Start, Tw)>,
+	seek_by: Option<f64>,
+	seek_to: Option<f64>,
+}
+/// frame i of the ramp (all frames distinct, exact in f32)
+fn ramp(i: usize) -> f32 {
+	(i + 1) as f32 / 512.0
+}
+/// per callback: state after it, frame index reported during it, outputs; None = panicked
+fn run_seek(ids: &[ClockId], n: usize, chunk: usize, cbs: &[KCb]) -> Option<Vec<(PlaybackState, i64, Vec<f32>)>> {
+	let r = catch(|| {
+		let data = StaticSoundData { sample_rate: SR, frames: Arc::from((0..n).map(|i| Frame::new(ramp(i), ramp(i))).collect::<Vec<_>>()), settings: StaticSoundSettings::new(), slice: None };
+		let (mut sound, mut handle) = data.into_sound().unwrap();
+		let info = MockInfoBuilder::new().build();
+		let mut per = vec![];
+		for cb in cbs {
+			if let Some(t) = &cb.pause {
+				handle.pause(mk_tween(ids, t));
+			}
+			if let Some((st, t)) = &cb.resume {
+				send_resume!(handle, ids, st, t);
+			}
+			if let Some(a) = cb.seek_by {
+				handle.seek_by(a);
+			}
+			if let Some(p) = cb.seek_to {
+				handle.seek_to(p);
+			}
+			sound.on_start_processing();
+			let pos = (handle.position() * SR as f64).round() as i64;
+			let mut buf = vec![Frame::new(7.0, 7.0); chunk];
+			sound.process(&mut buf, 1.0 / SR as f64, &info);
+			let outs = buf.iter().map(|f| if f.left.to_bits() == f.right.to_bits() { f.left } else { f32::NAN }).collect();
+			per.push((handle.state(), pos, outs));
+		}
+		per
+	});
+	match r {
+		Outcome::Ok(p) => Some(p),
+		_ => None,
+	}
+}
+fn kcbs_text(cbs: &[KCb]) -> String {
+	cbs.iter()
+		.enumerate()
+		.filter_map(|(j, cb)| {
+			let mut v = vec![];
+			if let Some(t) = &cb.pause {
+				v.push(format!("pause({} ns, {:?})", t.dur_ns, t.easing));
+			}
+			if let Some((st, t)) = &cb.resume {
+				v.push(match st {
+					Start::Imm => format!("resume({} ns, {:?})", t.dur_ns, t.easing),
+					o => format!("resume_at({o:?}, {} ns, {:?})", t.dur_ns, t.easing),
+				});
+			}
+			if let Some(a) = cb.seek_by {
+				v.push(format!("seek_by({a:?})"));
+			}
+			if let Some(p) = cb.seek_to {
+				v.push(format!("seek_to({p:?})"));
+			}
+			if v.is_empty() {
+				None
+			} else {
+				Some(format!("before callback {j}: {}", v.join(", ")))
+			}
+		})
+		.collect::<Vec<_>>()
+		.join("; ")
+}
+
+/// "While the state is Paused, WaitingToResume or Stopped the sound emits exact silence and its position does not
+/// advance" on a ramp (every frame distinct), with seek commands arriving while the sound is in such a state.
+/// Monitors: (a) the position the handle reports does not move between two callbacks that both end in such a state
+/// (a `seek_to` may, by another reading, put it at its target; nothing else); (b) those callbacks are silent; (c) when
+/// all seeks are `seek_by(0.0)`: states, positions and every output sample equal those of the same run without the seeks
+/// - the resumed sound carries on exactly where it was paused
+fn seek_frozen_case(s: &mut Session, ids: &[ClockId], n: usize, chunk: usize, cbs: &[KCb], fixed: bool) {
+	s.eval_only("seek_while_frozen");
+	let desc = format!(
+		"{}static sound, ramp of {n} distinct frames (frame i = (i+1)/512) at {SR} Hz, {} callbacks of {chunk} frames; {}",
+		if fixed { "[fixed corpus] " } else { "" },
+		cbs.len(),
+		kcbs_text(cbs)
+	);
+	let Some(per) = run_seek(ids, n, chunk, cbs) else {
+		s.fail(desc, "panic while driving the sound".into(), None);
+		return;
+	};
+	let frozen = |x: &PlaybackState| matches!(x, PlaybackState::Paused | PlaybackState::WaitingToResume | PlaybackState::Stopped);
+	let mut seeks_read_frozen = 0;
+	for k in 1..per.len() {
+		if !(frozen(&per[k - 1].0) && frozen(&per[k].0)) {
+			continue;
+		}
+		// callback k began and ended Paused / WaitingToResume / Stopped
+		if cbs[k].seek_by.is_some() || cbs[k].seek_to.is_some() {
+			seeks_read_frozen += 1;
+		}
+		if per[k].2.iter().any(|x| *x != 0.0) {
+			s.fail(desc.clone(), format!("callback {k} began {:?} and ended {:?} but emitted {:?}", per[k - 1].0, per[k].0, per[k].2), None);
+			return;
+		}
+		if k + 1 < per.len() {
+			// the position stored at the start of callback k + 1 is what callback k left behind
+			let (a, b) = (per[k].1, per[k + 1].1);
+			let target = cbs[k].seek_to.map(|p| (p * SR as f64) as i64);
+			if b != a && Some(b) != target {
+				s.fail(
+					desc.clone(),
+					format!(
+						"the handle reported position frame {a} during callback {k} and frame {b} during callback {}, yet callback {k} began {:?} and ended {:?}{}: the position of a sound in that state does not advance",
+						k + 1,
+						per[k - 1].0,
+						per[k].0,
+						if cbs[k].seek_by.is_some() || cbs[k].seek_to.is_some() { format!(" (a seek was read at its start: seek_by {:?}, seek_to {:?})", cbs[k].seek_by, cbs[k].seek_to) } else { String::new() }
+					),
+					None,
+				);
+				return;
+			}
+		}
+	}
+	if seeks_read_frozen > 0 {
+		s.count("seek_read_while_paused_or_waiting");
+	}
+	let noop_only = cbs.iter().all(|c| c.seek_to.is_none() && c.seek_by.map(|a| a == 0.0).unwrap_or(true));
+	if noop_only && cbs.iter().any(|c| c.seek_by.is_some()) {
+		// seek_by(0.0) read while the sound is not advancing changes nothing; read while it IS advancing it legitimately
+		// re-pushes a frame, so the comparison is made only when every seek was read in a frozen callback
+		let all_frozen = (0..per.len()).all(|k| cbs[k].seek_by.is_none() || (k >= 1 && frozen(&per[k - 1].0) && frozen(&per[k].0) && cbs[k].pause.is_none() && cbs[k].resume.is_none()));
+		if !all_frozen {
+			return;
+		}
+		let ctl_cbs: Vec<KCb> = cbs.iter().map(|c| KCb { seek_by: None, seek_to: None, ..c.clone() }).collect();
+		let Some(ctl) = run_seek(ids, n, chunk, &ctl_cbs) else {
+			s.fail(desc, "panic in the control run (same commands without the seeks)".into(), None);
+			return;
+		};
+		s.count("seek_noop_control_compared");
+		for k in 0..per.len() {
+			let same = per[k].0 == ctl[k].0 && per[k].1 == ctl[k].1 && per[k].2.iter().map(|x| x.to_bits()).eq(ctl[k].2.iter().map(|x| x.to_bits()));
+			if !same {
+				s.fail(
+					desc.clone(),
+					format!(
+						"callback {k}: state {:?}, position frame {}, output {:?}; the same run without the seek_by(0.0) commands (all read while the sound was Paused / WaitingToResume) gives {:?}, frame {}, {:?}: the position moved while the sound was not advancing",
+						per[k].0, per[k].1, per[k].2, ctl[k].0, ctl[k].1, ctl[k].2
+					),
+					None,
+				);
+				return;
+			}
+		}
+	}
+}
+
+fn fixed_seek_corpus() -> Vec<(usize, usize, Vec<KCb>)> {
+	let inst = || Tw { start: Start::Imm, dur_ns: 0, easing: Easing::Linear };
+	let mut v = vec![];
+	// pause, three no-op seeks in successive callbacks while Paused, resume
+	let mut a = vec![KCb::default(); 13];
+	a[2].pause = Some(inst());
+	a[3].seek_by = Some(0.0);
+	a[4].seek_by = Some(0.0);
+	a[5].seek_by = Some(0.0);
+	a[7].resume = Some((Start::Imm, inst()));
+	v.push((256, 4, a));
+	// the same while WaitingToResume (resume_at far in the future), then an immediate resume with a fade
+	let mut b = vec![KCb::default(); 14];
+	b[1].pause = Some(frames_tw(4, Easing::Linear));
+	b[4].resume = Some((Start::Del(10_000_000_000), inst()));
+	b[5].seek_by = Some(0.0);
+	b[7].seek_by = Some(0.0);
+	b[9].resume = Some((Start::Imm, frames_tw(4, Easing::Linear)));
+	v.push((256, 2, b));
+	// real seeks while Paused
+	let mut c = vec![KCb::default(); 10];
+	c[1].pause = Some(inst());
+	c[3].seek_to = Some(100.0 / SR as f64);
+	c[4].seek_by = Some(-8.0 / SR as f64);
+	c[5].seek_by = Some(16.0 / SR as f64);
+	c[7].resume = Some((Start::Imm, inst()));
+	v.push((256, 4, c));
+	v
+}
+
+fn seek_frozen_scenarios(s: &mut Session, r: &mut Rng, ids: &[ClockId], count: u64) {
+	for _ in 0..count {
+		let chunk = *r.pick(&[1usize, 2, 4, 8]);
+		let n = 512;
+		let lead = r.range(1, 3) as usize;
+		let kp = if r.chance(1, 2) { 0 } else { (r.below(4) + 1) * 2 };
+		let until_paused = ((kp as usize + chunk - 1) / chunk).max(1);
+		let hold = r.range(2, 6) as usize;
+		let waiting = r.chance(1, 3);
+		let noop = r.chance(1, 2);
+		let kr = if r.chance(1, 2) { 0 } else { (r.below(4) + 1) * 2 };
+		let tail = (kr as usize + chunk - 1) / chunk + 3;
+		let resume_cb = lead + until_paused + hold;
+		let mut cbs = vec![KCb::default(); resume_cb + tail];
+		cbs[lead].pause = Some(frames_tw(kp, gen_easing(r)));
+		let first = lead + until_paused; // the sound is Paused when this callback begins
+		if waiting {
+			cbs[first].resume = Some((Start::Del(5_000_000_000 + r.below(1000)), frames_tw(kr, Easing::Linear)));
+		}
+		let mut any = false;
+		for j in (first + waiting as usize)..resume_cb {
+			if r.chance(2, 3) || (!any && j + 1 == resume_cb) {
+				any = true;
+				if noop {
+					cbs[j].seek_by = Some(0.0);
+				} else {
+					match r.below(4) {
+						0 => cbs[j].seek_by = Some(0.0),
+						1 => cbs[j].seek_by = Some(r.range(-40, 40) as f64 / SR as f64),
+						2 => cbs[j].seek_to = Some(r.below(300) as f64 / SR as f64),
+						_ => {
+							cbs[j].seek_by = Some(r.range(-8, 8) as f64 / SR as f64);
+							cbs[j].seek_to = Some(r.below(300) as f64 / SR as f64);
+						}
+					}
+				}
+			}
+		}
+		cbs[resume_cb].resume = Some((Start::Imm, frames_tw(kr, gen_easing(r))));
+		seek_frozen_case(s, ids, n, chunk, &cbs, false);
+	}
+}
+
 pub fn run(args: &Args) {
 	let mut rng = Rng::new(args.seed ^ 0xC03);
 	let n: u64 = (if args.thorough { 8_000 } else { 800 }) * args.budget_mul;
@@ -1719,6 +2170,13 @@ pub fn run(args: &Args) {
 		"one case = one real sound of DC frames (output == gain) driven through callbacks with generated pause / resume / resume_at / stop commands (tween durations 0, sub-frame, frame multiples, arbitrary; Linear/Powi easings; start times immediate/delayed/clock present, paused, removed); kinds: history = static sound as a bare Sound (looping or finite, start position, start time, optional fade-in; 3-9 callbacks of 1-2 process calls); stream_history = streaming sound as a bare Sound with a scripted decoder whose thread is paced by permits, so the ring content at every callback is exactly known (mostly starved; natural end; decoder error at a scripted call); stream_fade_starved = fade command on a starved stream with a known answer; stream_error_not_advancing = decoder error while Paused / WaitingToResume / start time pending / Pausing; ended_at_construction = static sound reversed with nothing to play; same_boundary_static / same_boundary_stream = sound playing at unity gain, pause(tp) then resume(tr) issued with no callback between them (the handle still reports Playing when resume is called) or, as a control, one callback apart, known answer: Resuming until tr completes then Playing, output equal to uninterrupted playback, position advancing; main_track_static / main_track_stream = sound played through a real AudioManager on the main track with a command (or pause then resume back to back) issued between play() and the first callback (or later); observables per callback: handle.state(), handle.position(), finished(), every output sample; an immediate resume is always sent as handle.resume(tween), the other start times as resume_at; on every trace the last-command monitor is evaluated: the command read last (read order pause, resume, stop) fixes the branch of the life cycle the handle may report until the next command, forwards only; distinct = distinct scenario text; non-trivial = at least one command or a natural end. Monitor-only scenarios (fade laws, natural end, unloading / slot reuse on tracks of capacity 1, sub-tracks, sounds that end at construction played on tracks) are counted as evaluations",
 	);
 	let ids = clock_ids();
+	// fixed corpus, the same on every run whatever args.seed: tweens that carry their own start time; seeks while Paused
+	for l in fixed_tween_start_corpus() {
+		tween_start_law(&mut s, &ids, &l, true);
+	}
+	for (n, chunk, cbs) in fixed_seek_corpus() {
+		seek_frozen_case(&mut s, &ids, n, chunk, &cbs, true);
+	}
 	for _ in 0..n {
 		let sc = gen_scenario(&mut rng);
 		let tr = run_scenario(&ids, &sc);
@@ -1744,5 +2202,7 @@ pub fn run(args: &Args) {
 	same_boundary_scenarios(&mut s, &mut rng, &ids, n / 8);
 	ended_scenarios(&mut s, &mut rng, &ids, n / 8);
 	track_scenarios(&mut s, &mut rng, &ids, n / 4);
+	tween_start_scenarios(&mut s, &mut rng, &ids, n / 8);
+	seek_frozen_scenarios(&mut s, &mut rng, &ids, n / 4);
 	s.finish();
 }
